@@ -205,6 +205,39 @@ class Oracle(simcheck.BaseOracle):
                 if not m19.closed or m19.date_time_closed == d1 or closed_calls != ["1.9", "1.9"]:
                     self.add("live-repeated-close", "live: second CLOSED update: closed=%s stamp renewed=%s callbacks=%s" % (
                         m19.closed, m19.date_time_closed != d1, closed_calls))
+            # ---- recorder mode: raw stream data (dicts), a strategy subscribed to the raw stream and one with an empty filter
+            raw_closed, raw_data = [], []
+            rec = BaseStrategy(market_filter={"marketIds": ["1.77"]}, name="rec")
+            rec.streams = [mock.Mock(stream_id=55)]
+            rec.process_closed_market = lambda market, datum: raw_closed.append(("rec", market.market_id, datum.get("id") if isinstance(datum, dict) else None))
+            rec.process_raw_data = lambda clk, pt, datum: raw_data.append(("rec", datum.get("id")))
+            other = BaseStrategy(market_filter={"marketIds": ["1.88"]}, name="other")
+            other.streams = [mock.Mock(stream_id=66)]
+            other.process_closed_market = lambda market, datum: raw_closed.append(("other", market.market_id, None))
+            other.process_raw_data = lambda clk, pt, datum: raw_data.append(("other", datum.get("id")))
+            st.process_closed_market = lambda market, datum: raw_closed.append(("x", market.market_id, None))
+            fw.strategies._strategies.extend([rec, other])
+            logged.clear()
+            md_open = {"status": "OPEN", "runners": [], "marketTime": "2030-01-01T12:00:00.000Z", "eventId": "1"}
+            md_closed = dict(md_open, status="CLOSED")
+            fw._process_raw_data(events.RawDataEvent((55, "c1", t0 + 11000, [{"id": "1.77", "marketDefinition": md_open}])))
+            if "1.77" not in fw.markets.markets:
+                self.add("recorder-market-not-added", "recorder mode: raw data of a new market did not add it to the framework")
+            if fw.handler_queue.qsize() != 0:
+                self.add("recorder-close-on-open", "recorder mode: an OPEN market definition queued a close event")
+            fw._process_raw_data(events.RawDataEvent((55, "c2", t0 + 12000, [{"id": "1.77", "marketDefinition": md_closed}])))
+            if fw.handler_queue.qsize() != 1:
+                self.add("recorder-close-lost", "recorder mode: %d close events queued for one CLOSED market definition" % fw.handler_queue.qsize())
+            else:
+                fw._process_close_market(fw.handler_queue.get_nowait())
+                m77 = fw.markets.markets.get("1.77")
+                got = sorted(raw_closed)
+                # the subscribed strategy and the empty-filter strategy are told once each, with the datum; the other one is not
+                if m77 is None or not m77.closed or got != [("rec", "1.77", "1.77"), ("x", "1.77", None)] or logged.count("CloseMarketEvent") != 1:
+                    self.add("recorder-close", "recorder mode: close of 1.77: closed=%s callbacks=%s close events logged=%d" % (
+                        getattr(m77, "closed", None), got, logged.count("CloseMarketEvent")))
+            if sorted(raw_data) != [("rec", "1.77"), ("rec", "1.77")]:
+                self.add("recorder-raw-data-dispatch", "recorder mode: raw data callbacks %s" % sorted(raw_data))
         finally:
             datetime.datetime = real
             for ex in (fw.simulated_execution, fw.betfair_execution, fw.betdaq_execution):
